@@ -258,6 +258,16 @@ def _install_shims():
     sys.modules['prometheus_async.aio.web'] = paw
 
     # prometheus_client: inert metrics
+    class _DecoOrCtx:
+        def __call__(self, f):
+            return f
+
+        def __enter__(self):
+            return self
+
+        def __exit__(self, *a):
+            return False
+
     class _Metric:
         def __init__(self, *a, **k):
             pass
@@ -284,14 +294,10 @@ def _install_shims():
             pass
 
         def time(self):
-            def deco(f):
-                return f
-            return deco
+            return _DecoOrCtx()
 
         def track_inprogress(self):
-            def deco(f):
-                return f
-            return deco
+            return _DecoOrCtx()
 
     pc = StubModule('prometheus_client')
     pc.__path__ = []
